@@ -50,15 +50,18 @@ claim("C13",
       "Rocq proof (fold over hierarchy levels) + checked correspondence + exhaustive key sequences",
       "DESIGN.md section 6 C13")
 claim("C10",
-      "Theorems (Coq): for every string of Unicode scalar values the reader decodes the escaper's token stream back to "
-      "the string (unbounded, induction + UTF-16 arithmetic by lia), every \\u parameter is in the signed 16-bit range with "
-      "one fallback character, and for all 65536 code units the lexer produces exactly those tokens between neighbouring "
-      "characters (finite, by computation). Against the implementation: the bytes of the file written by write_rtf are "
-      "decoded by the same Gallina reader (cp1252 for high bytes) and every probe string placed in every text-bearing "
-      "position must be read back; thorough tier sweeps all 1.1M scalar values as c, ac, cb, acb.",
-      "Lexer compositionality (lex (escape s) = tokens of the theorem) is validated by strict token correspondence, "
-      "not proved; RTF reader semantics (cp1252 under \\ansi, \\uc skipping) are my formalisation of RTF 1.9.",
-      "Rocq proof (induction over strings, lia; finite reflection over 65536 units) + byte-level differential check + exhaustive code-point sweep",
+      "Theorems (Coq): C10_chars - for EVERY string of Unicode scalar values whose 7-bit characters are not \\ { } CR LF, "
+      "decode_tokens (lex (escape s)) = s: the escaper's text read back through the Gallina lexer and decoder is the string "
+      "(character level, unbounded; the lexer's compositionality is proved: one step per plain character, three per escaped "
+      "UTF-16 unit, decimal parameters of all 65536 units parsed back by computation); token-level round trip with UTF-16 "
+      "arithmetic by lia; every \\u parameter in the signed 16-bit range with one fallback character. Against the "
+      "implementation: the bytes of the file written by write_rtf are decoded by the same Gallina reader (cp1252 for high "
+      "bytes) and every probe string placed in every text-bearing position must be read back, including 28 normalisation- / "
+      "folding-sensitive characters and sequences; thorough tier sweeps all 1.1M scalar values as c, ac, cb, acb.",
+      "With conversion on the statement goes through C11's reference converter (not a theorem for all texts); RTF reader "
+      "semantics (cp1252 under \\ansi, \\uc skipping) are my formalisation of RTF 1.9.",
+      "Rocq proof (lexer state-machine induction + UTF-16 arithmetic + finite reflection over 65536 units) + byte-level "
+      "differential check incl. exhaustive code-point sweep",
       "DESIGN.md section 6 C10")
 claim("C11",
       "Theorems (Coq): on the regenerated 682-entry table and RTF_CHAR_MAPPING — every command alone reads back as its "
